@@ -26,7 +26,7 @@ HIST = hprop.HistoryProperty(
     instr_bias={"relocate": True, "kinds": [1, 1, 1, 8, 8, 8, 2, 5, 0, 3, 6]},
 )
 RULE = ("(a) component: operation sequences (<= 60) on simulation_state_ops: add / move / remove / pop vehicle, add / move / remove request, "
-        "add / modify-in-place / attempt-to-move / remove station and base, with cells from a pool built to hit same cell, neighbouring cell "
+        "add / modify-in-place / attempt-to-move / remove station and base - each through the kind-specific function or, half the time, through the generic add_entity_safe / modify_entity_safe -, with cells from a pool built to hit same cell, neighbouring cell "
         "inside one search cell, neighbouring search cell, far cell, return to a previous cell and several entities per cell, search "
         "resolutions 5-12; reference model = dict id -> cell per kind; after every operation the entity maps, location indexes and search "
         "indexes must equal the model exactly (no stale, duplicated or empty entries) and station/base move attempts must fail and change "
@@ -43,7 +43,7 @@ OPS = ["add", "add", "move", "move", "move", "remove", "pop", "touch"]
 @st.composite
 def st_case(draw) -> Dict[str, Any]:
     res = draw(st.sampled_from([5, 7, 7, 9, 11, 12]))
-    ops = draw(st.lists(st.tuples(st.sampled_from(OPS), st.sampled_from(KINDS), st.integers(0, 7), st.sampled_from([0, 0, 1, 1, 2, 3, 4, 5, 6, 7, 8, 9, 10, 11]), st.integers(0, 2)).map(list), min_size=8, max_size=60))
+    ops = draw(st.lists(st.tuples(st.sampled_from(OPS), st.sampled_from(KINDS), st.integers(0, 7), st.sampled_from([0, 0, 1, 1, 2, 3, 4, 5, 6, 7, 8, 9, 10, 11]), st.integers(0, 2), st.booleans()).map(list), min_size=8, max_size=60))
     return {"res": res, "ops": ops}
 
 
@@ -126,11 +126,15 @@ def check_case(case: Dict[str, Any]) -> Tuple[List[Violation], Set[str], Dict[st
     for oi, row in enumerate(case["ops"]):
         op, kind, sel, ci = row[:4]
         also = row[4] if len(row) > 4 else 0
+        generic = bool(row[5]) if len(row) > 5 else False  # through the generic entity API (what runner_payload_ops.modify_entities uses)
         g = pool[ci % len(pool)]
         ids = sorted(model[kind])
         add = getattr(ops, {"v": "add_vehicle_safe", "r": "add_request_safe", "s": "add_station_safe", "b": "add_base_safe"}[kind])
         mod = getattr(ops, {"v": "modify_vehicle_safe", "r": "modify_request_safe", "s": "modify_station_safe", "b": "modify_base_safe"}[kind])
         rem = getattr(ops, {"v": "remove_vehicle_safe", "r": "remove_request_safe", "s": "remove_station_safe", "b": "remove_base_safe"}[kind])
+        if generic:
+            add, mod, rem = ops.add_entity_safe, ops.modify_entity_safe, rem
+            flags.add("generic_entity_api")
         before = sim
         if op == "add" or not ids:
             n += 1
